@@ -797,6 +797,52 @@ func (x *Exec) checkPost(st *State, ins *ssa.Return, results []Value) {
 		}
 		x.emit(st, "post", lab, g, c.Src)
 	}
+	// refinement: the implementation meets the contract callers of the interface method rely on
+	for _, rf := range x.FC.Refines {
+		name, except := rf, ""
+		if i := strings.Index(rf, " except "); i >= 0 {
+			name, except = strings.TrimSpace(rf[:i]), rf[i+8:]
+		}
+		skip := map[string]bool{}
+		for _, l := range strings.Fields(strings.ReplaceAll(except, ",", " ")) {
+			skip[l] = true
+		}
+		full := x.P.fullFuncName(name, x.CF)
+		ifc := x.P.Externs[full]
+		if ifc == nil || !ifc.Iface {
+			x.unsupported("refines %s: no interface contract %s", name, full)
+			continue
+		}
+		rp := strings.Index(name, ")")
+		it, err := x.P.ResolveType(strings.TrimPrefix(name[:rp], "("), x.CF)
+		if err != nil || len(x.Fn.Params) == 0 {
+			x.unsupported("refines %s: %v", name, err)
+			continue
+		}
+		renv := &Env{x: x, st: st, old: x.init, vars: map[string]Value{}, cf: x.P.FileOf[ifc]}
+		for i, pn := range ifc.Params {
+			if i >= len(x.Fn.Params) {
+				break
+			}
+			v := x.params[x.Fn.Params[i].Name()]
+			if i == 0 {
+				v = x.makeIface(v, x.Fn.Params[0].Type(), it)
+			}
+			renv.vars[pn] = v
+			renv.vars[fmt.Sprintf("arg%d", i)] = v
+		}
+		bindResults(renv, x.Fn.Signature, res)
+		for ci, c := range ifc.Ensures {
+			lab := c.Label
+			if lab == "" {
+				lab = fmt.Sprintf("%d", ci)
+			}
+			if c.UsesLog || skip[lab] {
+				continue
+			}
+			x.emit(st, "refines", lastName(full)+":"+lab, x.evalBool(renv, c.E, c), c.Src)
+		}
+	}
 	// call frame: logged callees not declared in `calls` must not have been called
 	for _, k := range sortedKeys(st.Calls) {
 		declared := false
